@@ -13,15 +13,15 @@
    follow refines the reference chown (Memfs/RefineChown.v). Memfs/RefineHistory.v puts the calls together: a reference
    filesystem working on the flat tree alone (it resolves its own path arguments against the tree's working directory), and
    the theorem that from every well-formed kind-sound state - the fresh filesystem in particular - ANY history of
-   mkfile, mkdir_p, mkdir_m, write_all, write_lines, append_all, append_line, append_lines, read_all, read_lines, remove, remove_all (off the root), symlink, readlink, readlink_abs, move_p, set_cwd, cwd, abs, chown without follow, chmod with octal modes without follow, mkfile_m, root, paths / dirs / files / all_paths / all_dirs / all_files, exists / is_dir / is_file / is_symlink / is_symlink_dir / is_exec / is_readonly, mode / owner / uid / gid
+   mkfile, mkdir_p, mkdir_m, write_all, write_lines, append_all, append_line, append_lines, read_all, read_lines, remove, remove_all (off the root), symlink, readlink, readlink_abs, move_p, set_cwd, cwd, abs, chown without follow, chmod with octal modes without follow, mkfile_m, root, paths / dirs / files / all_paths / all_dirs / all_files, copy of a link-free source to a fresh destination or (a directory) into an existing directory, exists / is_dir / is_file / is_symlink / is_symlink_dir / is_exec / is_readonly, mode / owner / uid / gid
    gives call by call exactly the reference's value or error kind and
-   ends in exactly the reference's tree. PARTIAL: copy, entries() with options, symbolic chmod, and chmod / chown with follow are compared with the real code state-for-state
+   ends in exactly the reference's tree. PARTIAL: copy onto existing entries, of sources containing links or with follow, entries() with options, symbolic chmod, and chmod / chown with follow are compared with the real code state-for-state
    and judged on pre/post snapshots, and proved safe (no panic, well formed, kind-sound), but their reference-level
    specification is not yet a theorem. *)
 From stdpp Require Import gmap.
 From Coq Require Import NArith.
 From RV Require Import Base.Str Path.Helpers Path.Expand Memfs.State Memfs.Ops Memfs.Step Memfs.Wf Memfs.WfMore Memfs.WfMove
-  Memfs.ContentFacts Memfs.MoveFacts Memfs.Spec Memfs.Refine Memfs.Kinds Memfs.RemoveAll Memfs.RefineMore Memfs.MkdirFail Memfs.RefineChown Memfs.RefineChmod Memfs.RefineList Memfs.RefineMove Memfs.RefineHistory Memfs.Walk Memfs.WalkOps Macros.Asserts.
+  Memfs.ContentFacts Memfs.MoveFacts Memfs.Spec Memfs.Refine Memfs.Kinds Memfs.RemoveAll Memfs.RefineMore Memfs.MkdirFail Memfs.RefineChown Memfs.RefineChmod Memfs.RefineList Memfs.RefineCopy Memfs.Names Memfs.RefineMove Memfs.RefineHistory Memfs.Walk Memfs.WalkOps Macros.Asserts.
 
 Theorem C01_step_no_panic : forall env m o, step env m o <> Panic.
 Proof. exact step_no_panic. Qed.
@@ -133,7 +133,7 @@ Proof. exact chown_refines. Qed.
 Print Assumptions C01_chown_refines.
 
 (* the reference filesystem on the flat tree, one call ... *)
-Theorem C01_step_refines : forall env m o t' r', WF m -> kinds_ok m -> spec_step env (abs m) o = Some (t', r') ->
+Theorem C01_step_refines : forall env m o t' r', WF m -> kinds_ok m -> keys_ok m -> spec_step env (abs m) o = Some (t', r') ->
   exists m', step env m o = Done (m', r') /\ abs m' = t'.
 Proof. exact step_refines. Qed.
 Print Assumptions C01_step_refines.
@@ -152,9 +152,42 @@ Theorem C01_listing_refines : forall env m k s p, WF m -> kinds_ok m -> resolve 
 Proof. exact listing_refines. Qed.
 Print Assumptions C01_listing_refines.
 
+(* copy, for the calls the exact copy theorems cover (a source without links, not followed, to a fresh path whose parent is a real directory,
+   or a directory into an existing real directory under its own name): the reference adds a copy of every node below the source *)
+Theorem C01_copy_dir_refines : forall env m s d o sp dp db ddir r pd,
+  WF m -> kinds_ok m -> keys_ok m -> cp_follow o = false -> resolve env m s = inl sp -> resolve env m d = inl dp ->
+  m_ents m !! sp = Some r -> real_dir r -> dp = db :: ddir -> m_ents m !! dp = None -> m_ents m !! ddir = Some pd -> real_dir pd ->
+  ~ sp `suffix_of` dp -> (forall q x, sp `suffix_of` q -> m_ents m !! q = Some x -> e_link x = false) ->
+  exists m', copy_op env m s d o = Done (m', inl tt) /\ abs m' = spec_copy_tree (abs m) o sp dp.
+Proof. exact copy_dir_refines. Qed.
+Print Assumptions C01_copy_dir_refines.
+
+Theorem C01_copy_into_refines : forall env m s d o sp dp b sd r pd,
+  WF m -> kinds_ok m -> keys_ok m -> cp_follow o = false -> resolve env m s = inl sp -> resolve env m d = inl dp ->
+  sp = b :: sd -> m_ents m !! sp = Some r -> real_dir r -> m_ents m !! dp = Some pd -> real_dir pd -> m_ents m !! (b :: dp) = None ->
+  ~ sp `suffix_of` (b :: dp) -> (forall q x, sp `suffix_of` q -> m_ents m !! q = Some x -> e_link x = false) ->
+  exists m', copy_op env m s d o = Done (m', inl tt) /\ abs m' = spec_copy_tree (abs m) o sp (b :: dp).
+Proof. exact copy_into_refines. Qed.
+Print Assumptions C01_copy_into_refines.
+
+Theorem C01_copy_file_refines : forall env m s d o sp dp db ddir r pd,
+  WF m -> kinds_ok m -> resolve env m s = inl sp -> resolve env m d = inl dp -> sp <> dp ->
+  m_ents m !! sp = Some r -> e_dir r = false -> e_link r = false ->
+  dp = db :: ddir -> m_ents m !! dp = None -> m_ents m !! ddir = Some pd -> real_dir pd ->
+  exists m', copy_op env m s d o = Done (m', inl tt) /\ abs m' = spec_copy_tree (abs m) o sp dp.
+Proof. exact copy_file_refines. Qed.
+Print Assumptions C01_copy_file_refines.
+
+(* what the reference tree holds after such a copy *)
+Theorem C01_spec_copy_lookup : forall t o sp dp k, (forall k, dp `suffix_of` k -> t_nodes t !! k = None) ->
+  t_nodes (spec_copy_tree t o sp dp) !! k =
+    if decide (dp `suffix_of` k) then node_copy o <$> t_nodes t !! (rebase dp sp k) else t_nodes t !! k.
+Proof. exact spec_copy_lookup. Qed.
+Print Assumptions C01_spec_copy_lookup.
+
 (* ... and any history: same results call by call, same tree at the end *)
-Theorem C01_history_refines : forall env os m t rs, WF m -> kinds_ok m -> spec_run env (abs m) os = Some (t, rs) ->
-  exists m', run env m os = Done (m', rs) /\ abs m' = t /\ WF m' /\ kinds_ok m'.
+Theorem C01_history_refines : forall env os m t rs, WF m -> kinds_ok m -> keys_ok m -> spec_run env (abs m) os = Some (t, rs) ->
+  exists m', run env m os = Done (m', rs) /\ abs m' = t /\ WF m' /\ kinds_ok m' /\ keys_ok m'.
 Proof. exact history_refines. Qed.
 Print Assumptions C01_history_refines.
 
